@@ -15,36 +15,85 @@ TREE_PLANNERS = ["rrt", "rrt_connect", "rrt_star"]
 
 PROPS = {
     "C01": dict(
-        v_units=["rrt"], level="proof",
+        v_units=ALL_PLANNERS, level="proof",
         explanation="Verus proves, on the mechanically extracted real planner code, that `solve` returns Ok(p) only with every p[k] accepted by the checker: invariant `every stored node was accepted` (t_valid / rm_valid) is established by setup, preserved by every loop iteration (each push is guarded by check_motion whose strongest postcondition includes valid(to)), and carried to the path by the parent-chain lemma; the root is validated at the top of solve, so an invalid start returns InvalidStartState.",
         assumptions=COMMON_ASSUME,
         not_covered=["RRT-Connect goal-tree root: the sampled goal state is never submitted to the checker (known finding KF-C01-rrtconnect-goal-root)"],
     ),
     "C02": dict(
-        v_units=["rrt"], level="proof",
+        v_units=ALL_PLANNERS, level="proof",
         explanation="Verus proves `reconstruct_path` returns exactly the parent chain of the given node reversed (first element the root, last the node), setup makes the tree exactly [start_states[0]], wf (root == start of the current problem) is preserved by every public method, and solve's Ok result therefore starts at start_states[0] of the problem installed by the last setup and ends in a state for which goal.is_satisfied returned true.",
         assumptions=COMMON_ASSUME + ["GoalSampleableRegion::sample_goal returns a state satisfying the goal (documented contract; used only for the RRT-Connect goal-tree root)"],
     ),
     "C03": dict(
-        v_units=["rrt"], level="proof",
+        v_units=ALL_PLANNERS, level="proof",
         explanation="check_motion is proved against its strongest postcondition `r == motion_checked(from,to)` (the checker accepted interp(from,to,i/n) for all i in 1..=n with n = ceil(d/(0.1*lvsl)), and `to`); every site that writes a parent link / roadmap edge is guarded by it (invariant t_checked / rm_edges), so every consecutive path pair is seg_checked. The gap lemma (n >= d/(0.1 L) ==> consecutive queried states at most L apart) is proved over IDEAL reals.",
         assumptions=COMMON_ASSUME + [IDEAL + " (gap lemma only)", "premise interp_speed_ok(space) for the gap lemma"],
     ),
     "C07": dict(
-        v_units=["rrt"], level="proof",
+        v_units=ALL_PLANNERS, level="proof",
         explanation="Determinism is reduced to a provenance discipline proved by Verus: in the world `seeded_mode()` (planners are constructed with Some(seed)) every draw site (random_bool, sample_goal, sample_uniform) has the precondition `generator is seed-derived`, `new` stores a seed-derived generator, and every public method stores a seed-derived generator back on every exit (p_rng_ok is a postcondition on all exits). The only other external functions reachable are the clock (result flows only into the deadline test) and HashMap insert/get.",
         assumptions=COMMON_ASSUME + ["rand's StdRng::seed_from_u64 and every draw are deterministic functions of the generator state (stub contract)", "clock isolation is a syntactic side condition checked by the extractor, not a discharged obligation"],
         not_covered=["'PRM compared at equal sample counts' needs an iteration budget; two-run equality itself is not expressible as a one-run contract and follows informally from provenance + closed world"],
     ),
     "C08": dict(
-        v_units=["rrt"], level="proof",
+        v_units=ALL_PLANNERS, level="proof",
         explanation="Verus proves absence of panics (every unwrap, index, arithmetic overflow, random_bool range is an obligation) in new/setup/solve/construct_roadmap/set_problem_definition for all call histories (wf is established by new and preserved by every public method), and the typestate results: solve before setup == Err(PlannerUninitialised), PRM solve on an empty roadmap == Err(UnsampledStateSpace), invalid start == Err(InvalidStartState), success answers the problem installed last.",
         assumptions=COMMON_ASSUME,
         not_covered=["PRM::set_problem_definition with a problem over a different space object (the spaces' own assert_eq! on dimensions are outside the planner units)"],
     ),
     "C15": dict(
-        v_units=["rrt"], level="proof",
+        v_units=TREE_PLANNERS, level="proof",
         explanation="The tree invariants (shape: parent links in range and acyclic; rooted at the start / sampled goal; every node valid; every edge motion-checked; edge length bound) are loop invariants of solve and postconditions on every exit (Ok and Timeout); reconstruct_path is proved to terminate (decreases) and to return the parent chain.",
         assumptions=COMMON_ASSUME + [IDEAL + " (edge-length clause only)"],
     ),
+}
+
+PROPS.update({
+    "C04": dict(
+        v_units=ALL_PLANNERS, level="proof",
+        explanation="Planner half (Verus, unbounded): if the space is convex for its own interpolation (premise convex_ok), sampler outputs are in bounds (premise samples_in_bounds), the step is non-negative and every stored state is in bounds (established by setup from an in-bounds start / goal sample), then every state added by an iteration is in bounds (the steer parameter max/d lies in [0,1] by the EXACT axiom ax_div_unit) and so is every state of a returned path. Space half: the premises are decided per concrete space by Engine K (see coverage.premises).",
+        assumptions=COMMON_ASSUME + ["premises convex_ok(space), samples_in_bounds(problem), 0 <= max_distance; 'up to rounding at the boundary' is inherited from the space's own satisfies_bounds (in_bounds_spec is its result)"],
+        premises={"convex_ok": "see C04 K-harnesses: proved for RealVector (per coordinate, bounded dimension), REFUTED for bounded SO(2) (known finding KF-C04-so2-short-arc), assumed for SO(3)/SE(3)"},
+    ),
+    "C05": dict(
+        v_units=ALL_PLANNERS, level="proof",
+        explanation="Verus proves (over IDEAL reals) that every edge written by an iteration is no longer than the planner's limit: RRT / RRT-Connect extend: the steered state is at parameter max/d, so its distance is (max/d)*d = max, or the sample itself with d <= max; RRT*: the parent is the nearest node (<= max_distance) or a neighbour (< search_radius, find_neighbours soundness), rewired edges are neighbour edges; PRM: dist < connection_radius is tested at every link and at the start connection. The invariant edges_le(limit) is carried to the returned path by the chain lemmas (traversal against the link direction uses premise metric_ok).",
+        assumptions=COMMON_ASSUME + [IDEAL, "premises interp_speed_ok(space) (C10 constant speed), metric_ok(space) (symmetry), 0 <= max_distance, parameters unchanged since the edges were created (edges_le(limit) is an explicit hypothesis on the entry state; setup establishes it for every limit)"],
+        not_covered=["'up to rounding': the bound is exact in IDEAL arithmetic; floating-point error of the space's distance/interpolate is not bounded here"],
+    ),
+    "C06": dict(
+        v_units=ALL_PLANNERS, level="proof",
+        explanation="Safety part only. (a) never a path when none exists: corollary of C01+C03 (an Ok path is a chain of checked motions from the start to a goal state). (b) result domain: solve returns only Ok, Timeout, InvalidStartState, PlannerUninitialised (+ NoSolutionFound / UnsampledStateSpace for PRM); construct_roadmap returns Ok or PlannerUninitialised. (c) deadline discipline: in every loop iteration the clock reading is named (rule R13) and Verus proves that control continues past the test only with !(elapsed > limit), and that the test precedes every sampler / distance / checker call of the iteration (ghost flag).",
+        assumptions=COMMON_ASSUME,
+        not_covered=["wall-clock bound 'within T plus one iteration' and termination of solve: Verus proves partial correctness; the main loops carry exec_allows_no_decreases_clause", "finite work per iteration needs lvsl > 0: set_longest_valid_segment_fraction(<= 0) stores 0 (known finding KF-C06-lvsl-zero, Engine K)"],
+    ),
+    "C16": dict(
+        v_units=TREE_PLANNERS, level="proof",
+        explanation="Verus proves for RRT, RRT* and RRT-Connect::extend: the linear scan returns a node no other node is strictly nearer than (loop invariant t_nearest, EXACT transitivity/irreflexivity of < including NaN); the candidate is steer_spec(near, sample, max) = the sample itself when d <= max, else interpolate(near, sample, max/d); the iteration's effect on the tree is exactly `rrt_step` / `extend_rel`: the candidate is appended as a child of that nearest node iff the motion to it is valid, otherwise the tree is unchanged. The sample comes from the goal sampler or the space sampler, never from the goal for bias 0 and always for bias 1 (random_bool contract). RRT-Connect grows the tree with fewer nodes first.",
+        assumptions=COMMON_ASSUME + ["rand's random_bool(p) returns false for p == 0 and true for p == 1 (stub contract)"],
+        not_covered=["goal-bias frequency for 0 < p < 1 (statistical)", "RRT-Connect: 'then tries to connect the other tree to the new node' is covered as: the second extend is called with the new node's state as target (extend_rel on tree_b)"],
+    ),
+    "C17": dict(
+        v_units=["rrt_star"], level="proof",
+        explanation="Verus proves on the real RRTStar::solve: cost(a,b) == b.cost + dist(a,b); find_neighbours returns exactly the indices within search_radius; choose-parent postcondition `chosen_parent`: the parent is the nearest node or a neighbour, reached by a checked motion, and no candidate with a checked motion is strictly cheaper; rewiring postcondition `rewired_ok` for every neighbour with frame: re-parented with cost via the new node iff strictly cheaper by a checked motion and not the new node's parent, every other node bit-identical, states never change; invariant t_cost_ok (IDEAL): recorded cost >= parent's recorded cost + edge length, with equality at link time.",
+        assumptions=COMMON_ASSUME + [IDEAL + " (cost sums)", "premise dist_nonneg(space): distances are >= 0 and never NaN (precondition of RRTStar::setup via p_space_ok)"],
+        not_covered=["last sentence (for the same seed RRT* returns a path ending at the same state as RRT's and no longer): a relational property of two programs, not a one-run contract"],
+    ),
+    "C18": dict(
+        v_units=["prm"], level="proof",
+        explanation="Verus proves on the real PRM code: roadmap invariant rm_graph (adjacency in range, no self-links, no duplicates, symmetric), rm_valid, rm_checked and rm_edges_le are preserved by construct_roadmap; the roadmap states are exactly the valid samples drawn, in order (ghost log); every link satisfies dist < radius and check_motion (link_list); a repeated construct_roadmap and set_problem_definition / solve leave states and adjacency unchanged; setup clears. Query soundness: the BFS parent map is a forest rooted at checked start connections whose edges are roadmap edges (pm_ok), the goal index satisfies the goal, and the returned path is start + that chain.",
+        assumptions=COMMON_ASSUME + ["set_problem_definition is called with a problem over an equal space (explicit precondition)"],
+        not_covered=["query completeness (NoSolutionFound only if no goal milestone is reachable) and hop-minimality (fewest milestones): the BFS closure / level invariants are not yet discharged"],
+    ),
+})
+
+# properties whose checks are not built yet (listed under not_applicable until they are)
+PENDING = {
+    "C09": "Engine K harnesses not built yet in this revision",
+    "C10": "Engine K harnesses not built yet in this revision",
+    "C11": "Engine K harnesses not built yet in this revision",
+    "C12": "Engine K harnesses not built yet in this revision",
+    "C13": "Engine K harnesses not built yet in this revision",
+    "C20": "Verus unit for the pyo3 / wasm wrapper bodies not built yet in this revision",
 }
